@@ -11,6 +11,7 @@ EXTENDS Stages, TLC, Json, IOUtils
 
 BGD == INSTANCE BindGroupData
 TC == INSTANCE TypeClosure
+L == INSTANCE Layout
 
 Rec == ndJsonDeserialize(IOEnv.TRACE)
 Enforce == IOEnv.ENFORCE
@@ -86,7 +87,7 @@ C03(c, o) ==
 
 (* ------------------------------------------------------------------ C08 *)
 C08(c, o) ==
-  IF ~(HasS(c) /\ ParseOk(o) /\ Projected(o)) THEN NoVerdict ELSE
+  IF ~(HasS(c) /\ ValidAll(o) /\ Projected(o)) THEN NoVerdict ELSE
   LET S == c.S
       names == [ i \in DOMAIN o.out.structs |-> o.out.structs[i].name ]
   IN [ dom |-> TRUE, fails |->
@@ -102,6 +103,7 @@ IrSize(o) == o.oracle.ir.nodes + o.oracle.ir.types + o.oracle.ir.globals + 8
 WorkOf(o) == o.work[1] + o.work[2] + o.work[3]
 C20(c, o) ==
   IF ~ParseOk(o) THEN NoVerdict ELSE
+  IF o.ret.kind = "timeout" THEN [ dom |-> TRUE, fails |-> { "generation did not return within the hard limit (child process killed)" } ] ELSE
   [ dom |-> TRUE, fails |->
       Chk(~(o.ret.kind = "panic" /\ o.ret.msg = "verif budget exceeded"),
           "generation exceeded the work budget (super-polynomial walk); IR size " \o Str(IrSize(o)))
@@ -126,10 +128,12 @@ C13(c, o) ==
                    want == PushExpected(S)
                    cst == IF Has(o.out.push_stages, "stages") THEN Range(o.out.push_stages.stages) ELSE {"?"}
                    rs == IF ~Has(r, "stages") THEN {"?"} ELSE IF r.stages = << "$PUSH_CONSTANT_STAGES" >> THEN cst ELSE Range(r.stages)
+                   wsize == L!SizeOf(S, PushGlobals(S)[1].ty)
                IN Chk(Has(r, "start") /\ r.start = "0", "push constant range does not start at 0")
-                  \cup Chk(~r.incl /\ Has(r, "end") /\ r.end = Str(o.oracle.global_size[pc]),
-                           "push constant range end " \o (IF Has(r, "end") THEN r.end ELSE "?") \o " but the variable has WGSL size " \o Str(o.oracle.global_size[pc]))
-                  \cup Chk(o.oracle.global_size[pc] % 4 = 0, "ORACLE push constant size not a multiple of 4")
+                  \cup Chk(~r.incl /\ Has(r, "end") /\ r.end = Str(wsize),
+                           "push constant range end " \o (IF Has(r, "end") THEN r.end ELSE "?") \o " but the variable has WGSL size " \o Str(wsize))
+                  \cup Chk(wsize % 4 = 0, "ORACLE push constant size not a multiple of 4")
+                  \cup Chk(o.oracle.global_size[pc] = wsize, "ORACLE naga size " \o Str(o.oracle.global_size[pc]) \o " differs from Layout.tla size " \o Str(wsize))
                   \cup Chk(cst = want, "PUSH_CONSTANT_STAGES " \o ToJson(cst) \o " expected " \o ToJson(want))
                   \cup Chk(rs = cst, "range stages " \o ToJson(rs) \o " differ from PUSH_CONSTANT_STAGES " \o ToJson(cst))
              ELSE {}) ]
